@@ -17,6 +17,7 @@ type Req struct {
 	TimeoutMs  int    `json:"timeout_ms,omitempty"` // quiescence deadline
 	PostAPI    bool   `json:"post_api,omitempty"`   // call ProcessCount/DeadProcessCount/TimeTaken after the run
 	WantDump   bool   `json:"want_dump,omitempty"`  // parse/check: include declaration dump
+	DumpTy     bool   `json:"dump_ty,omitempty"`    // parse: include the types attached to names
 	SettleMs   int    `json:"settle_ms,omitempty"`  // check: how long to watch leftover typechecker goroutines
 	WantStacks bool   `json:"want_stacks,omitempty"`
 
